@@ -92,7 +92,7 @@ class View(object):
   """Offsets into an Ethernet frame, as OpenFlow 1.0 looks at it."""
   __slots__ = ("ntags", "l3", "ethertype", "ipv4", "ihl", "proto", "mf", "fragoff", "l4", "l4len", "why")
 
-  def __init__(self, f):
+  def __init__(self, f, max_tags=1):
     self.ntags = 0
     off = 12
     t = (f[12] << 8) | f[13]
@@ -109,7 +109,7 @@ class View(object):
     if t != 0x0800:
       self.why = "not-ipv4"
       return
-    if self.ntags > 1:
+    if self.ntags > max_tags:
       self.why = "ipv4-behind-two-tags"    # OF 1.0 sees dl_type 0x8100 there
       return
     l3 = self.l3
@@ -239,7 +239,7 @@ def rewrite(frame, act, udp_zero="keep", tos="dscp"):
 
 def fill_udp_checksum(frame):
   """The frame with the checksum of a complete UDP datagram filled in if the sender left it 0."""
-  v = View(frame)
+  v = View(frame, max_tags=99)           # wherever the datagram sits: this is not an OpenFlow field rewrite
   if not v.ipv4 or v.proto != 17 or v.mf or v.fragoff != 0 or v.l4len < 8:
     return frame
   if frame[v.l4 + 6] or frame[v.l4 + 7]:
